@@ -523,6 +523,13 @@ class AffEval:
                     raise Undecided('second split variable')
                 return Aff(1 if t else 0)
             return self.ev(inner)
+        if k == 'call' and len(e.get('args') or []) == 1:
+            # `usize::from(flag)` / `From::from(x)` of a bool or a narrower unsigned integer is the same number as `x as usize`
+            fpath = e.get('f') or {}
+            res = fpath.get('resolved') or {}
+            nm = (res.get('def') or res.get('name') or fpath.get('name') or '')
+            if nm.endswith('::from') or nm == 'from' or (fpath.get('e') == 'path' and str(fpath.get('name', '')).endswith('from')):
+                return self.ev({'e': 'cast', 'a': e['args'][0]})
         if k == 'mcall' and e['name'] == 'saturating_sub' and len(e['args']) == 1:
             a, b = self.ev(e['recv']), self.ev(e['args'][0])
             d = a - b
